@@ -1,6 +1,7 @@
 // C19 driver: feeds scripted integrator outcomes to the *rendered* Naunet::Solve and prints what it did.
 // stdin, one script per line (cvode):   dt y0 mxsteps reset_mxsteps ncv (flag frac){ncv} nre (ok){nre}
 //                          (odeint):   dt y0 mxsteps reset_mxsteps nsteps          (reset_mxsteps < 0: no Reset call)
+// with -DPYMODULE -DC19_PYWRAP the call goes through Naunet::PyWrapSolve (flag 1 = std::runtime_error reached the caller)
 // stdout per script:  flag y_first y_min y_max logged_y0_or_nan ncvode_calls_made(-1 for odeint)
 #include <stdio.h>
 #include <stdlib.h>
@@ -51,7 +52,24 @@ int main() {
         NaunetData data = NaunetData();
         double ab[NEQUATIONS];
         for (int i = 0; i < NEQUATIONS; i++) ab[i] = y0;
+#ifdef C19_PYWRAP
+        // the Python-facing entry point: flag 1 = the caller sees an exception, 0 = the caller gets an array back
+        int flag = 0;
+        {
+            py::array_t<double> arr(std::vector<py::ssize_t>{NEQUATIONS}, ab);
+            try {
+                py::array_t<double> out = n.PyWrapSolve(arr, dt, &data);
+                double *p = static_cast<double *>(out.request().ptr);
+                for (int i = 0; i < NEQUATIONS; i++) ab[i] = p[i];
+            } catch (const std::runtime_error &) {
+                flag = 1;
+                double *p = static_cast<double *>(arr.request().ptr);
+                for (int i = 0; i < NEQUATIONS; i++) ab[i] = p[i];
+            }
+        }
+#else
         int flag = n.Solve(ab, dt, &data);
+#endif
         n.Finalize();
         double lo = ab[0], hi = ab[0];
         for (int i = 0; i < NEQUATIONS; i++) { if (ab[i] < lo) lo = ab[i]; if (ab[i] > hi) hi = ab[i]; }
